@@ -152,6 +152,16 @@ def scenarios(family, tier, mode="th"):
             for start in starts:
                 for a, b in itertools.combinations_with_replacement(menu, 2):
                     add(start, [a, b])
+    # wrong-wakeup triples: one holder, one waiter on the same identifier, and a third call on
+    # ANOTHER identifier of the same lock table whose release notifies the shared condition
+    if family == "C07":
+        add("p1a", [C("delete", "p1"), C("tag", "p2", "a"), C("store", "p3", "b", "none")], pb=2)
+        add("empty", [C("store", "p1", "a", "none"), C("delete", "p1"),
+                      C("store", "p2", "b", "none")], pb=2)
+        add("empty", [C("tag", "p1", "a"), C("tag", "p1", "b"), C("tag", "p2", "b")], pb=2)
+    else:
+        add("absent", [C("putmeta", "p1", fmt="fD", ver="v1"), C("putmeta", "p1", fmt="fD", ver="v2"),
+                       C("putmeta", "p1", fmt="f2", ver="v2")], pb=2)
     if tier == "thorough":
         tri = quick[:8]
         for start, calls in tri:
